@@ -36,6 +36,7 @@ TABLE = [
     ("TraceSock", "TraceSock.cfg", "fn-C02/sock-drive.ndjson", None),
     ("TraceCodec", "TraceCodec.cfg", "fn-C08/codec-drive.ndjson", None),
     ("TraceCodec", "TraceCodec.cfg", "fn-C14/decode-drive.ndjson", None),
+    ("TraceTcpLayer", "TraceTcpLayer.cfg", "fn-X01/tcpl-drive.ndjson", None),
 ]
 SKIP_KEYS = {"run", "i"}
 
